@@ -24,6 +24,7 @@ import numpy as np
 
 from harness import core
 from harness import lib_c09 as L
+from harness import lib_c09_qualify as Q
 
 FINDINGS_DIR = core.VERIF / "findings"
 
@@ -477,6 +478,10 @@ def extract_real(obs):
             fresh = [o for p_ in rec["result"] for o in p_.output if o and o not in orig]
             item.update(fresh=fresh, name=p0.name, qual=all(o.startswith(p0.name + "__") for o in fresh),
                         orig_form=proto_form(p0))
+            # hypotheses of `adapted_names_fresh_strings`, observed on every real conversion: the node's name does not
+            # end in "_", the names the converter invented contain no "__" and are distinct
+            local = [o[len(p0.name) + 2:] if o.startswith(p0.name + "__") else o for o in fresh]
+            item["name_hyps"] = [Q.ends_clean(p0.name), all(Q.no_sep(o) for o in local), len(set(fresh)) == len(fresh)]
             main = [p_ for p_ in rec["result"] if set(p_.output) & set(p0.output)]
             item["conv_form"] = [proto_form(p_) for p_ in main]
             item["conv_others"] = [proto_form(p_) for p_ in rec["result"] if p_ not in main]
@@ -534,6 +539,9 @@ def compare(real, m, mismatches):
         if cls == "convert-inline" and e.get("tgt") != dict(map(tuple, rec["opsets"])).get(""):
             mismatches.append(("versions", "inline target"))
         if cls == "convert" and rec["fresh"] is not None:
+            if rec.get("name_hyps") is not None and not all(rec["name_hyps"]):
+                mismatches.append(("names", f"{rec['name']}: introduced {rec['fresh']}: a hypothesis of adapted_names_fresh_strings does "
+                                            f"not hold (node name does not end in '_', no '__' in converter names, distinct) = {rec['name_hyps']}"))
             if rec["fresh"] and rec["qual"] != bool(e.get("qualified")):
                 mismatches.append(("names", f"{rec['name']}: introduced {rec['fresh']}, model says qualified={e.get('qualified')}"))
             # the converter's observable output: the node that now defines the original outputs is
@@ -1556,7 +1564,8 @@ def run(ck: core.Check):
     if ck.thorough:
         ck.leanchecker(["SpoxModel.Props.C09", "SpoxModel.Lemmas.Opset", "SpoxModel.Lemmas.OpsetRename",
                         "SpoxModel.Lemmas.OpsetFuncs", "SpoxModel.Lemmas.OpsetNames", "SpoxModel.Lemmas.OpsetMerge",
-                        "SpoxModel.Model.Opset"])
+                        "SpoxModel.Model.Opset", "SpoxModel.Lemmas.OpsetQualify", "SpoxModel.Model.OpsetQualify",
+                        "SpoxModel.Model.OpsetInits"])
 
     mismatches: list[tuple[str, str]] = []
     try:
@@ -1569,12 +1578,16 @@ def run(ck: core.Check):
     if drv is not None:
         for name, fn in (("policy", lambda: check_policy(ck, drv, mismatches)),
                          ("optional floor", lambda: check_optional(ck, drv, mismatches)),
+                         ("qualify", lambda: ck.cov.__setitem__("qualify_correspondence", Q.check_qualify(
+                             ck, drv, mismatches, 3000 if ck.thorough else 400))),
+                         ("inits", lambda: ck.cov.__setitem__("inits_correspondence", Q.check_inits(
+                             ck, drv, mismatches, 3000 if ck.thorough else 300))),
                          ("schemas", lambda: check_schemas(ck, drv, info, mismatches))):
             try:
                 n = fn()
                 if name == "policy":
                     n_policy = n
-                else:
+                elif name == "schemas":
                     n_sch = n
             except Exception as e:  # noqa: BLE001
                 ck.broken("correspondence", f"C09 {name} not observable", f"{type(e).__name__}: {e}")
@@ -1727,11 +1740,13 @@ def run(ck: core.Check):
         "onnx.version_converter emits nodes valid at the target version and preserves meaning (validated per run by the checker/onnxruntime/numpy oracle, not modelled)",
         "value names assigned by the builder are unique (C02); converter-introduced names are distinct within one singleton model",
         "onnx.defs form compatibility (attribute names/types/requiredness/defaults, arities) as computed by translator/opset_facts.py",
+        "no value name chosen by the caller has the form <node name>__<converter name> (NoClash of qualify_preserves_wiring); converter names contain no '__' and node names do not end in '_' (checked on every observed conversion)",
     ]
     ck.trusted_base += [
         "translator/opset_facts.py (AST of _internal_op.py; introspection of spox._schemas.SCHEMAS and the shipped opset modules; onnx.defs)",
         "the observation wrappers around compile_graph / adapt_best_effort / adapt_node / adapt_inline in harness/props/c09.py",
         "harness/lib_c09.py numpy meanings of the program vocabulary",
+        "harness/lib_c09_qualify.py (stub replacing onnx.version_converter.convert_version while the real adapt_node runs; reading names back from NodeProtos / GraphProtos)",
     ]
 
 
